@@ -208,3 +208,15 @@ memchr(const void *s, int c, size_t n) {
   return NULL;
 }
 #endif
+
+#if !defined(VERIF_REPLAY) && defined(ENV_MEMCPY_BYTELOOP)
+/* (opt-in) CBMC 6.11 loses the bytes of a memcpy whose destination is an array member of a struct that is itself an array
+ * element (cose[0].partial_iv_data; same defect as the 2-D row case): plain byte loop, bounded by unwindset memcpy.0 and
+ * checked by the unwinding assertion */
+void *
+memcpy(void *dst, const void *src, size_t n) {
+  size_t i;
+  for (i = 0; i < n; i++) ((unsigned char *)dst)[i] = ((const unsigned char *)src)[i];
+  return dst;
+}
+#endif
